@@ -362,7 +362,7 @@ def gen_case(seed):
     chunks = None
     if decoder != "dict" and rng.random() < 0.6:
         chunks = [rng.choice([1, 1, 2, 3, 4, 7, 16, 61, 64, 512]) for _ in range(rng.choice([1, 2, 3, 5]))]
-    cfg = rng.choice(["default", "default", "lenient", "strictattr", "strictconv"])
+    cfg = rng.choice(["default", "default", "default", "lenient", "lenient", "strictattr", "strictattr", "strictconv", "strictconv", "xinclude", "loaddtd"])
     case = {"seed": seed, "decoder": decoder, "doc": name, "faults": faults, "chunks": chunks, "cfg": cfg}
     if rng.random() < 0.08:
         case["noclass"] = True  # the target class is located from the document
